@@ -338,8 +338,7 @@ _T_CONTACT = ('<mujoco>' + _OPT + '<worldbody><geom name="floor" type="plane" si
               'condim="%(cd1)s" friction="%(f1)s 0.02 0.003" euler="90 %(e1)s 0"/></body>'
               '<body name="b2" pos="0.02 0.01 %(z2)s"><joint name="j2_0" type="free"/><geom name="g2" type="capsule" size="%(r2)s %(l2)s" '
               'condim="%(cd2)s" friction="%(f2)s 0.01 0.002" euler="%(e2)s 90 0"/></body>'
-              '<body name="b3" pos="-0.5 0.3 0.3"><joint name="j3_0" type="ball"/><geom name="g3" type="sphere" size="0.1" pos="0.2 0 -0.22" '
-              'condim="%(cd3)s"/></body></worldbody></mujoco>')
+              '</worldbody></mujoco>')
 
 _T_TENDON = ('<mujoco>' + _OPT + '<worldbody>'
              '<body name="b1" pos="0 0 1"><joint name="h1" type="hinge" axis="0 1 0" damping="%(d1)s" armature="0.1"/>'
@@ -375,7 +374,7 @@ def pinned(draw, kind):
              z1=mg.fmt(r1 - pen1), z2=mg.fmt(r1 - pen1 + r1 + r2 - pen2), cd1=str(draw(st.sampled_from([3, 4, 6]))),
              cd2=str(draw(st.sampled_from([3, 4, 6]))), cd3=str(draw(st.sampled_from([3, 4]))), f1=n(0.3, 1.2), f2=n(0.3, 1.2),
              e1=str(draw(st.integers(-25, 25))), e2=str(draw(st.integers(-20, 20))))
-    xml, scale, labels = _T_CONTACT % p, 0.004, ['pinned:contact', 'geom:capsule', 'jnt:free', 'jnt:ball']
+    xml, scale, labels = _T_CONTACT % p, 0.004, ['pinned:contact', 'geom:capsule', 'jnt:free']
   elif kind == 'tendon':
     p = dict(dt='0.004', int='Euler', cone='pyramidal', imp='1', d1=n(0.1, 1.5), d2=n(0.1, 1.5),
              td=n(0.2, 2), ts=n(1, 15, 1), tf=n(0.05, 0.5), td2=n(0.1, 1.5), eqa=draw(st.sampled_from(['true', 'false'])))
